@@ -3,7 +3,7 @@ use crate::harness::Outcome;
 use crate::models;
 use crate::prng::Rng;
 use crate::proto::hex;
-use crate::rundrv::{drive_run, Behav, OutStep, RunOpts, RunScript, RunTrace, Strategy};
+use crate::rundrv::{Behav, OutStep, RunOpts, RunScript, RunTrace, Strategy};
 use crate::world::{CmdFile, TargetSpec, World, WorldSpec};
 use serde::{Deserialize, Serialize};
 use serde_json::Value;
@@ -59,9 +59,10 @@ pub fn gen_world(rng: &mut Rng, p: &GenParams) -> WorldSpec {
         } else if p.prefix_names && prefix_used < prefix_pool.len() && rng.chance(70, 100) {
             prefix_used += 1;
             prefix_pool[prefix_used - 1].to_string()
-        } else if rng.chance(1, 12) {
-            // a long directory name with multi-byte characters at every offset a fixed byte index could hit
-            format!("t{:02}-{}données-日本語-каталог-проекта-очень-длинное-имя", i, "x".repeat(rng.below(4)))
+        } else if rng.chance(1, 8) {
+            // a long directory name with multi-byte characters wherever a fixed byte index, counted from
+            // the start or from the end, could fall (the ASCII runs at both ends shift the alignment)
+            format!("t{:02}-{}données-日本語-каталог-проекта-очень-длинное-имя{}", i, "x".repeat(rng.below(4)), "y".repeat(rng.below(4)))
         } else {
             format!("t{:02}", i)
         };
@@ -327,6 +328,11 @@ fn is_graph_error(v: &Option<Value>) -> bool {
 
 /// Build the world, put it in the scenario's selection mode, record analyze, drive the run.
 pub fn execute_run(sc: &RunScenario, keep_world: Option<&mut Option<World>>) -> Prepared {
+    execute_run_with(sc, keep_world, false)
+}
+
+/// `listener`: a healthy `log tail` process (all streams, no filters) is attached for the whole run
+pub fn execute_run_with(sc: &RunScenario, keep_world: Option<&mut Option<World>>, listener: bool) -> Prepared {
     let mut w = match World::create(&sc.spec, true) {
         Ok(w) => w,
         Err(e) => return Prepared::Skip(format!("world: {}", e)),
@@ -365,7 +371,21 @@ pub fn execute_run(sc: &RunScenario, keep_world: Option<&mut Option<World>>) -> 
     }
     let a = w.cli_v(&a_args);
     let (analyze_before, analyze_err) = if a.code == Some(0) { (a.json(), None) } else { (None, a.err_json().or(Some(Value::String(a.err_str())))) };
-    let trace = drive_run(&mut w, "M1", &sc.script, Duration::from_millis(sc.hang_ms));
+    let l = if listener {
+        let cfg = crate::props_listen::ListenerCfg { stdout: true, stderr: true, targets: vec![], commands: vec![] };
+        match crate::props_listen::start_listener(&mut w, &cfg) {
+            Ok(l) => Some(l),
+            Err(e) => return Prepared::Skip(format!("listener: {}", e)),
+        }
+    } else {
+        None
+    };
+    let trace = crate::rundrv::drive_run_l(&mut w, "M1", &sc.script, Duration::from_millis(sc.hang_ms), l);
+    if let Some(l) = l {
+        if trace.listener_exit.is_none() {
+            let _ = crate::props_listen::finish_listener(&mut w, l);
+        }
+    }
     let probes: BTreeMap<String, u64> = w.ctl.as_mut().map(|c| c.take_probes().into_iter().collect()).unwrap_or_default();
     let commands = expanded_commands(&sc.spec, &sc.script.opts);
     let ctx = RunCtx {
